@@ -62,6 +62,9 @@ def cluster(pid, nq=150, nt=4000):
     # exit code 17: the harness leaves its synctest bubble by os.Exit after flushing (parked proxy goroutines)
     return {"engine": "cluster", "driver": "cluster-" + pid, "bin": "h2.test", "quick": ["-n", str(nq)], "thorough": ["-n", str(nt)], "ok_codes": [17], "timeout": 6000}
 
+def scenario(engine, pid, nq, nt):
+    return {"engine": engine, "driver": "cluster-" + pid, "bin": "h2.test", "quick": ["-n", str(nq)], "thorough": ["-n", str(nt)], "ok_codes": [17], "timeout": 6000}
+
 H3_NOTE = "H3: 3 or 5 real servers with full run loops in one synctest bubble behind fault-injecting proxies; the recorded global history is judged by the executable Spec predicates of Spec/ClusterSpec.lean (no model stepping: search for a failing history + evidence that real histories satisfy the predicates the theorems are about)"
 
 SV_NOTE = "handlers modelled as write plans (Model/Server.lean): every durable write, failure ordinal and crash ordinal; tie = H2: the real server (skipStartup, FSM goroutine only, testing/synctest) and the model stepped through the same events, every observation compared (response, ordered durable writes, full durable image, volatile dump, FSM calls)"
@@ -271,14 +274,11 @@ PROPS["C09"] = {
         T("VL.verify_acks_produced_after_call", "heartbeat routine model (requests taken when the heartbeat is sent, put back on failure): every credited acknowledgement answers a heartbeat sent strictly after the request was registered - any number of followers, every schedule of registrations, sends, responses and failures"),
         T("VL.C09_straddling_ack_witness", "witness for the behaviour before the repair: send, register, response credits an acknowledgement produced before the call"),
     ],
-    "engines": [cluster("C09", 240, 5000)],
-    "assumptions": [H3_NOTE, "1/6 of the cluster cases are the two litmus schedules (leader with a slow clock; only non-voters reachable / a heartbeat answer held in the network across an election); monitor: a successful VerifyLeader on s in term T while another server had acted as leader of a higher term before the call began is a violation",
+    "engines": [cluster("C09", 120, 3000), scenario("verify", "C09", 100, 2500)],
+    "assumptions": [H3_NOTE, "the verify engine runs the four litmus schedules only (leader with a slow clock; only non-voters reachable / a heartbeat answer held in the network across an election / an uncommitted demotion / an InstallSnapshot answer held across an election); monitor: a successful VerifyLeader on s in term T while another server had acted as leader of a higher term before the call began is a violation",
                     "the voters-only clause (quorum arithmetic) is covered by the monitor and the litmus, not by a theorem"],
     "level_note": "partial: the theorem covers the freshness clause for the heartbeat routine; voter counting is covered by H3 only.",
 }
-
-def scenario(engine, pid, nq, nt):
-    return {"engine": engine, "driver": "cluster-" + pid, "bin": "h2.test", "quick": ["-n", str(nq)], "thorough": ["-n", str(nt)], "ok_codes": [17], "timeout": 6000}
 
 PROPS["C13"] = {
     "lean_module": "RaftVerif.Props.C13",
